@@ -312,3 +312,164 @@ def c19_e2e(ctx):
     for kind, src, inputs, nontriv in gen_c19_programs(ctx.rng, n_each):
         skipped += check_program(ctx, kind, src, inputs, f"input:e2e {kind} :: {src}", nontrivial=nontriv)
     ctx.extra["e2e_skipped"] = skipped
+    copyable_lend(ctx)
+
+
+# ------------------------------------------------------------------ copyable ELEMENTS lent as borrowed arguments
+# A copyable value can only be lent through a parameter whose type is a non-copyable type variable (mem_swap, with_owned, user
+# generics): `__getitem__` copies the element out and the write-back stores the callee's value with `set`.  CPython cannot mirror
+# that by running the same source (ints are immutable), so the expected result is computed by a reference function here:
+# copy the arguments in, apply the callee's permutation/update, write back in argument order (= Python's `a, b = b, a`).
+GEN_HDR = ("L = guppy.type_var('L', copyable=False, droppable=False)\n\n"
+           "@guppy\ndef rot(a: L, b: L, c: L) -> None:\n    mem_swap(a, b)\n    mem_swap(b, c)\n\n"
+           "@guppy\ndef exch(a: L, b: L) -> None:\n    mem_swap(a, b)\n\n"
+           "@guppy\ndef inc5(a: int) -> tuple[int, int]:\n    return a, a + 5\n\n"
+           "@guppy.struct\nclass P:\n    a: int\n    b: int\n\n")
+
+
+def check_expected(ctx, kind, src, cases, key_prefix):
+    try:
+        c = Compiled(src)
+    except Exception as e:  # noqa: BLE001
+        ctx.violation(f"{key_prefix} :: compile", f"generated program is not compiled: {type(e).__name__}: {str(e)[:300]}",
+                      {"case": {"kind": "e2e", "what": kind}, "source": src, "error": repr(e)[:500]})
+        return
+    for args, want in cases:
+        g1, g2 = c.run(args, "default"), c.run(args, "adversarial")
+        ctx.count({"e2e": kind, "src": src, "args": list(args)}, nontrivial=True, kind=f"e2e:{kind}:{g1[0]}")
+        if g1[0] == "skip" or g2[0] == "skip":
+            ctx.bump("e2e:skipped:" + (g1[1] if g1[0] == "skip" else g2[1]))
+            continue
+        for order, g in (("default", g1), ("adversarial", g2)):
+            if not agree(g, want):
+                ctx.violation(f"{key_prefix} :: args={list(args)}",
+                              f"program run on the lowered Hugr ({order} schedule) gives {g}; reference semantics (the callee's update "
+                              f"of a lent array element is visible in the array) gives {want}; args {list(args)}; source:\n{src}",
+                              {"case": {"kind": "e2e", "what": kind, "args": list(args)}, "source": src, "order": order,
+                               "real": repr(g), "oracle": repr(want)})
+                break
+
+
+def gen_copyable_lend(rng, n_each):
+    """yield (kind, source, [(args, expected outcome)])"""
+    PANIC = ("panic", "Array index out of bounds")
+
+    def lit(vals):
+        return "array(" + ", ".join(repr(v) for v in vals) + ")"
+
+    def idx_cases(n, k, extra=()):
+        """k-tuples of indices: mostly in range, some out of range / negative"""
+        res = [tuple(rng.randrange(0, n) for _ in range(k)) for _ in range(4)]
+        res.append(tuple(range(k)) if k <= n else tuple([0] * k))
+        bad = list(res[0])
+        bad[rng.randrange(k)] = rng.choice([-1, n, n + 3])
+        res.append(tuple(bad))
+        return res
+
+    for _ in range(n_each):
+        ety, mk = rng.choice([("int", lambda: rng.randrange(1, 90)), ("float", lambda: rng.randrange(1, 90) / 2),
+                              ("bool", lambda: rng.random() < 0.5)])
+        n = rng.randrange(3, 6)
+        vals = [mk() for _ in range(n)]
+        # mem_swap / exch of two elements
+        fn = rng.choice(["mem_swap", "exch"])
+        src = GEN_HDR + f"@guppy\ndef main(i: int, j: int) -> array[{ety}, {n}]:\n    xs = {lit(vals)}\n    {fn}(xs[i], xs[j])\n    return xs\n"
+        cases = []
+        for (i, j) in idx_cases(n, 2):
+            if 0 <= i < n and 0 <= j < n:
+                xs = list(vals)
+                xs[i], xs[j] = vals[j], vals[i]
+                cases.append(((i, j), ("value", tuple(xs))))
+            else:
+                cases.append(((i, j), PANIC))
+        yield "lend-copyable:swap", src, cases
+        # element <-> variable
+        y = mk()
+        src = (GEN_HDR + f"@guppy\ndef main(i: int) -> tuple[array[{ety}, {n}], {ety}]:\n    xs = {lit(vals)}\n    y = {y!r}\n"
+               f"    {fn}(xs[i], y)\n    return xs, y\n")
+        cases = []
+        for (i,) in idx_cases(n, 1):
+            if 0 <= i < n:
+                xs = list(vals)
+                xs[i] = y
+                cases.append(((i,), ("value", (tuple(xs), vals[i]))))
+            else:
+                cases.append(((i,), PANIC))
+        yield "lend-copyable:swap-var", src, cases
+        # generic three-way rotation
+        if n >= 3:
+            src = GEN_HDR + f"@guppy\ndef main(i: int, j: int, k: int) -> array[{ety}, {n}]:\n    xs = {lit(vals)}\n    rot(xs[i], xs[j], xs[k])\n    return xs\n"
+            cases = []
+            for (i, j, k) in idx_cases(n, 3):
+                if all(0 <= q < n for q in (i, j, k)):
+                    xs = list(vals)
+                    xs[i], xs[j], xs[k] = vals[j], vals[k], vals[i]
+                    cases.append(((i, j, k), ("value", tuple(xs))))
+                else:
+                    cases.append(((i, j, k), PANIC))
+            yield "lend-copyable:rot", src, cases
+    for _ in range(n_each):
+        n = rng.randrange(2, 5)
+        vals = [rng.randrange(1, 90) for _ in range(n)]
+        # with_owned on an int element
+        src = GEN_HDR + f"@guppy\ndef main(i: int) -> tuple[int, array[int, {n}]]:\n    xs = {lit(vals)}\n    r = with_owned(xs[i], inc5)\n    return r, xs\n"
+        cases = []
+        for (i,) in idx_cases(n, 1):
+            if 0 <= i < n:
+                xs = list(vals)
+                xs[i] += 5
+                cases.append(((i,), ("value", (vals[i], tuple(xs)))))
+            else:
+                cases.append(((i,), PANIC))
+        yield "lend-copyable:with_owned", src, cases
+        # elements of nested arrays, across two rows
+        rows = [[rng.randrange(1, 90) for _ in range(2)] for _ in range(n)]
+        rl = "array(" + ", ".join(lit(r) for r in rows) + ")"
+        src = (GEN_HDR + f"@guppy\ndef main(i: int, j: int, k: int, l: int) -> array[array[int, 2], {n}]:\n    xss = {rl}\n"
+               "    mem_swap(xss[i][j], xss[k][l])\n    return xss\n")
+        cases = []
+        for (i, k) in idx_cases(n, 2):
+            for (j, l) in [(0, 1), (1, 1), (rng.choice([0, 1]), rng.choice([-1, 2, 0]))]:
+                if 0 <= i < n and 0 <= k < n and 0 <= j < 2 and 0 <= l < 2:
+                    if i == k:
+                        continue  # both places lie in the same (non-copyable) row: lending it twice is C19's double borrow
+                    xx = [list(r) for r in rows]
+                    xx[i][j], xx[k][l] = rows[k][l], rows[i][j]
+                    cases.append(((i, j, k, l), ("value", tuple(tuple(r) for r in xx))))
+                elif not (0 <= i < n and 0 <= k < n and i == k):
+                    cases.append(((i, j, k, l), PANIC))
+        yield "lend-copyable:nested", src, cases
+        # fields of copyable structs in an array, and whole tuples
+        ps = [(rng.randrange(1, 90), rng.randrange(1, 90)) for _ in range(n)]
+        pl = "array(" + ", ".join(f"P({a}, {b})" for a, b in ps) + ")"
+        rt = "tuple[" + ", ".join(["int"] * (2 * n)) + "]"
+        rets = ", ".join(f"ps[{q}].a, ps[{q}].b" for q in range(n))
+        src = GEN_HDR + f"@guppy\ndef main(i: int, j: int) -> {rt}:\n    ps = {pl}\n    mem_swap(ps[i].a, ps[j].b)\n    return {rets}\n"
+        cases = []
+        for (i, j) in idx_cases(n, 2):
+            if 0 <= i < n and 0 <= j < n:
+                if i == j:
+                    continue
+                pp = [list(x) for x in ps]
+                pp[i][0], pp[j][1] = ps[j][1], ps[i][0]
+                cases.append(((i, j), ("value", tuple(v for x in pp for v in x))))
+            else:
+                cases.append(((i, j), PANIC))
+        yield "lend-copyable:fields", src, cases
+        tl = "array(" + ", ".join(f"({a}, {b})" for a, b in ps) + ")"
+        src = (GEN_HDR + f"@guppy\ndef main(i: int) -> tuple[array[tuple[int, int], {n}], tuple[int, int]]:\n    ts = {tl}\n    t = (7, 8)\n"
+               "    exch(ts[i], t)\n    return ts, t\n")
+        cases = []
+        for (i,) in idx_cases(n, 1):
+            if 0 <= i < n:
+                tt = list(ps)
+                tt[i] = (7, 8)
+                cases.append(((i,), ("value", (tuple(tt), ps[i]))))
+            else:
+                cases.append(((i,), PANIC))
+        yield "lend-copyable:tuple", src, cases
+
+
+def copyable_lend(ctx):
+    for kind, src, cases in gen_copyable_lend(ctx.rng, 2 if ctx.quick else 12):
+        check_expected(ctx, kind, src, cases, f"input:e2e {kind} :: {src}")
